@@ -3,9 +3,10 @@ CONSTANTS
   PRICE = {1, 2}
   AMOUNT = {0, 1}
   SEQS = {1}
-  MaxLong = 1
+  MaxLong = 2
   MaxShort = 0
   MaxSnap = 1
+  StableUpTo = 1
 INVARIANTS TypeOK Strict DerivedOK
 PROPERTIES SeqIsLast SnapshotReplaces UpdatePointwise LastWins
 CHECK_DEADLOCK FALSE
